@@ -485,19 +485,104 @@ func bindTemplates(tpl []tplSection, gc GenCorpus, goFile, pathFile string, prop
 		}
 	}
 	sort.Strings(enums)
+	// which YANG type a generated enumeration type stands for: the generated ΛEnumTypes table maps leaf paths to
+	// the enumeration types used there; a path that lists exactly one type, whose leaf has exactly one
+	// enumeration / identityref (member) type, identifies the YANG type, and goyang gives its value names
+	enumNames := map[string]string{}
+	if src, err := os.ReadFile(goFile); err == nil {
+		txt := string(src)
+		if i := strings.Index(txt, "ΛEnumTypes = map[string][]reflect.Type{"); i >= 0 {
+			blockRe := regexp.MustCompile(`"(/[^"]*)": \[\]reflect\.Type\{([^}]*)\}`)
+			typeRe := regexp.MustCompile(`reflect\.TypeOf\(\((E_[A-Za-z0-9_]+)\)\(0\)\)`)
+			for _, bm := range blockRe.FindAllStringSubmatch(txt[i:], -1) {
+				ts := typeRe.FindAllStringSubmatch(bm[2], -1)
+				if len(ts) != 1 {
+					continue
+				}
+				E := ts[0][1]
+				if _, done := enumNames[E]; done {
+					continue
+				}
+				var le *yang.Entry
+				for _, r := range roots {
+					if e := walkEntry(r, strings.Split(strings.Trim(bm[1], "/"), "/")); e != nil {
+						le = e
+						break
+					}
+				}
+				if le == nil || le.Type == nil {
+					continue
+				}
+				var members []*yang.YangType
+				var collect func(t *yang.YangType)
+				collect = func(t *yang.YangType) {
+					switch t.Kind {
+					case yang.Yenum, yang.Yidentityref:
+						members = append(members, t)
+					case yang.Yunion:
+						for _, m := range t.Type {
+							collect(m)
+						}
+					}
+				}
+				collect(le.Type)
+				if len(members) != 1 {
+					continue
+				}
+				var names, mods []string
+				if members[0].Kind == yang.Yenum {
+					names = members[0].Enum.Names()
+				} else if members[0].IdentityBase != nil {
+					for _, v := range members[0].IdentityBase.Values {
+						names = append(names, v.Name)
+						mn := ""
+						if m := yang.RootNode(v); m != nil {
+							mn = m.Name
+							if m.BelongsTo != nil {
+								mn = m.BelongsTo.Name
+							}
+						}
+						mods = append(mods, mn)
+					}
+				}
+				if len(names) == 0 {
+					continue
+				}
+				var only, each []string
+				for k, nm := range names {
+					only = append(only, fmt.Sprintf("X[v].Name == %q", nm))
+					if mods != nil {
+						each = append(each, fmt.Sprintf("(exists v int64 :: in(v, X) && X[v].Name == %q && X[v].DefiningModule == %q)", nm, mods[k]))
+					} else {
+						each = append(each, fmt.Sprintf("(exists v int64 :: in(v, X) && X[v].Name == %q)", nm))
+					}
+				}
+				enumNames[E] = "(forall v int64 :: in(v, X) ==> (" + strings.Join(only, " || ") + ")) && " + strings.Join(each, " && ")
+			}
+		}
+	}
 	for _, en := range enums {
 		n := 0
+		body, known := enumNames[en]
+		if !known {
+			body = "true"
+		}
 		for _, s := range tpl {
 			if s.Kind != "enumtype" {
 				continue
 			}
 			for _, l := range s.Lines {
+				l = expandX(l, "$ENUMNAMESARE", body)
 				out.WriteString(strings.ReplaceAll(l, "$E", en) + "\n")
 			}
 			n++
 		}
 		if n > 0 {
-			report = append(report, fmt.Sprintf("%s.%s (enumtype)", gc.Pkg, en))
+			lab := fmt.Sprintf("%s.%s (enumtype)", gc.Pkg, en)
+			if !known {
+				lab += " value names not compared with the schema (no leaf that identifies the YANG type)"
+			}
+			report = append(report, lab)
 		}
 	}
 	// PopulateDefaults: one instance per struct with that method. The defaulted leaves and their values come from
@@ -903,8 +988,38 @@ func expandX(l, name, body string) string {
 			return l
 		}
 		arg := l[i+len(name)+1 : e]
-		l = l[:i] + "(" + placeholderX.ReplaceAllLiteralString(body, arg) + ")" + l[e+1:]
+		l = l[:i] + "(" + substOutsideStrings(body, arg) + ")" + l[e+1:]
 	}
+}
+
+// substOutsideStrings replaces the placeholder X (as a whole word) by arg everywhere except inside Go string
+// literals (a YANG name such as "X-ONE" must stay as it is).
+func substOutsideStrings(body, arg string) string {
+	var b strings.Builder
+	for i := 0; i < len(body); {
+		if body[i] == '"' {
+			j := i + 1
+			for j < len(body) && body[j] != '"' {
+				if body[j] == '\\' {
+					j++
+				}
+				j++
+			}
+			if j >= len(body) {
+				j = len(body) - 1
+			}
+			b.WriteString(body[i : j+1])
+			i = j + 1
+			continue
+		}
+		j := i
+		for j < len(body) && body[j] != '"' {
+			j++
+		}
+		b.WriteString(placeholderX.ReplaceAllLiteralString(body[i:j], arg))
+		i = j
+	}
+	return b.String()
 }
 
 func isBasicGoType(t string) bool {
